@@ -136,13 +136,36 @@ func (rl *retransLoop) chanInFn(k int) ssa.Value {
 	return ch
 }
 
+// timerChanThroughHelper: inside a wait helper the timer is time.After(d) with d a parameter; at the helper's call
+// the argument for d is the Client field.
+func (rl *retransLoop) timerChanThroughHelper(v ssa.Value, field string) bool {
+	if rl.waitCall == nil {
+		return false
+	}
+	call, ok := v.(*ssa.Call)
+	if !ok || !(flow.IsCallTo(call, "time", "", "After") || flow.IsCallTo(call, "time", "", "Tick")) {
+		return false
+	}
+	p, isP := flow.Peel(call.Call.Args[0]).(*ssa.Parameter)
+	if !isP {
+		return false
+	}
+	i := paramIndex(p.Parent(), p)
+	return i < len(rl.waitCall.Call.Args) && clientFieldLoad(rl.waitCall.Call.Args[i], field)
+}
+
 // selectHelper: h consists of one blocking select whose every case returns a boolean constant; result maps
 // the select state to that constant (states whose value cannot be determined are left out).
 func selectHelper(h *ssa.Function) (*ssa.Select, map[int]bool) {
-	if h == nil || h.Blocks == nil || h.Signature.Results().Len() != 1 {
+	// one boolean result, or (bool, error): the boolean tells the cases apart, the error is what the answer case
+	// received
+	if h == nil || h.Blocks == nil || h.Signature.Results().Len() < 1 || h.Signature.Results().Len() > 2 {
 		return nil, nil
 	}
 	if b, ok := h.Signature.Results().At(0).Type().Underlying().(*types.Basic); !ok || b.Kind() != types.Bool {
+		return nil, nil
+	}
+	if h.Signature.Results().Len() == 2 && !isErrorType(h.Signature.Results().At(1).Type()) {
 		return nil, nil
 	}
 	var sel *ssa.Select
@@ -165,7 +188,7 @@ func selectHelper(h *ssa.Function) (*ssa.Select, map[int]bool) {
 	vals := map[int]bool{}
 	flow.Instrs(h, func(in ssa.Instruction) {
 		ret, ok := in.(*ssa.Return)
-		if !ok || len(ret.Results) != 1 {
+		if !ok || len(ret.Results) < 1 {
 			return
 		}
 		k, isK := ret.Results[0].(*ssa.Const)
@@ -462,7 +485,7 @@ func (c *Ctx) checkTimerSpacing(rl *retransLoop, field, rule, key string) {
 		return
 	}
 	for k, st := range rl.sel.States {
-		if st.Dir == types.RecvOnly && timerChan(st.Chan, field) {
+		if st.Dir == types.RecvOnly && (timerChan(st.Chan, field) || rl.timerChanThroughHelper(st.Chan, field)) {
 			rl.timerK = k
 		}
 	}
@@ -570,6 +593,9 @@ func (rl *retransLoop) helperEdge(k int) (*ssa.BasicBlock, int) {
 			continue
 		}
 		cond, neg := flow.Cond(ifi.Cond, true)
+		if ex, isEx := cond.(*ssa.Extract); isEx && ex.Index == 0 && ex.Tuple == ssa.Value(rl.waitCall) {
+			cond = rl.waitCall // (bool, error) helper: the boolean part
+		}
 		if cond != ssa.Value(rl.waitCall) {
 			continue
 		}
